@@ -352,9 +352,19 @@ package bgp
 //@ func (*EthernetSegmentIdentifier).DecodeFromBytes
 //@   claims post
 //@   ensures result != nil ==> isMsgErr(result)
+// RFC 8955 4.1: a FlowSpec NLRI of 240 octets or more has a 2-octet length whose high nibble is the marker 0xf;
+// the length itself is the low 12 bits (C04: the decoder accepts what the encoder below writes)
 //@ func (*FlowSpecNLRI).decodeFromBytes
-//@   claims post
+//@   tag C05 C04
+//@   claims post inv-init
 //@   ensures result != nil ==> isMsgErr(result)
+//@   loop 0 invariant pre(length) <= 0xfff
+// ... and the encoder writes that length, marker included, into the two octets it puts in front of the components
+//@ func (*FlowSpecNLRI).Serialize
+//@   tag C04
+//@   requires n != nil
+//@   claims at-call
+//@   at-call append(b, buf...) requires int(b[0]) == 0xf0 + length/256 && int(b[1]) == length%256
 //@ func (*LsTLVAdjacencySID).DecodeFromBytes
 //@   claims post
 //@   ensures result != nil ==> isMsgErr(result)
